@@ -44,7 +44,7 @@ def load_decoders(ctx):
 
 
 MIN_HITS = {
-    'quick': {"request": 1456225, "prefix": 253200, "extreme_len": 965922, "short": 55836, "decoders_seen": 736},
+    'quick': {"request": 1458323, "prefix": 253373, "extreme_len": 965041, "short": 55738, "decoders_seen": 736},
     'thorough': {"request": 6957792, "prefix": 1138233, "extreme_len": 4452364, "short": 488332, "decoders_seen": 1689},
 }
 
@@ -299,6 +299,32 @@ def cases(ctx):
                 yield mk(which, kind, gen.rbytes(r, r.choice([1, 2, 5, 33, 65, 100, 300])), "random")
             else:
                 yield mk(which, kind, "".join(r.choice(UNI + list("0123456789abcdef")) for _ in range(r.choice([1, 3, 10, 40]))), "random")
+        # 5a. script decoders: a push that declares far more than remains, BEHIND prefixes that may switch a parser into another mode
+        # (data carrier, open conditional, code separator, ...)
+        if which in ("script_from_bytes", "script_from_hex", "script_from_chunks", "tx_from_bytes", "tx_from_hex", "txout_from_hex", "txin_from_hex"):
+            pres = [b"", b"\x6a", b"\x00\x6a", b"\x6a\x6a", b"\x51\x6a", b"\x63", b"\x51\x63", b"\x63\x67", b"\xab", b"\x00", b"\x6a\x04abcd", b"\x76\xa9\x14" + bytes(20) + b"\x88\xac", b"\x6a\x4c\x01\x00"]
+            bombs = [b"\x4e\xff\xff\xff\xff", b"\x4e\x00\x00\x00\x10", b"\x4e\xff\xff\xff\x7f", b"\x4d\xff\xff", b"\x4c\xff", b"\x4e\x00\x00\x00\x10" + b"\x00" * 16, b"\x4b", b"\x4e\xff\xff\xff"]
+            for pre in pres:
+                for bomb in bombs:
+                    k += 1
+                    if k % N != S and not t:
+                        continue
+                    sc = pre + bomb
+                    if which.startswith("script"):
+                        item = sc
+                    elif which.startswith("txout"):
+                        item = wire.txout_encode({"value": 1, "script": sc})
+                    elif which.startswith("txin"):
+                        item = wire.txin_encode({"txid_wire": b"\x22" * 32, "vout": 1, "script": sc, "seq": 0})
+                    else:
+                        item = wire.tx_encode({"version": 1, "ins": [{"txid_wire": b"\x22" * 32, "vout": 1, "script": sc if len(pre) % 2 else b"", "seq": 0}], "outs": [{"value": 1, "script": sc}], "locktime": 0})
+                    yield mk(which, kind, item.hex() if kind == "text" else item, "oversized_push_behind_prefix")
+        # template tokens with numeric extremes
+        if which == "template_from_asm_string":
+            for op_ in ("=", "<", ">", "<=", ">="):
+                for n_ in (0, 1, 75, 76, 2**31 - 1, 2**31, 2**32 - 1, 2**32, 2**63 - 1, 2**63, 2**64 - 2, 2**64 - 1, 2**64, 2**64 + 1, 10**30, -1):
+                    yield mk(which, kind, "OP_DATA%s%d" % (op_, n_), "template_number")
+                    yield mk(which, kind, "OP_DUP OP_DATA%s%d OP_DATA" % (op_, n_), "template_number")
         # 5b. long runs of one repeated unit, alone and after / before a valid encoding (recursion or quadratic work per repeated unit:
         # a parser that retries on the remainder, strips one trailing byte at a time, ...). Conditional openers are left to the
         # dedicated nesting probes below.
